@@ -32,8 +32,15 @@ const (
 // MaxSites bounds the number of instrumented sites (checked by the instrumenter).
 const MaxSites = 4096
 
-// Budget exceeded sentinel (panic value).
-type BudgetExceeded struct{ Steps int64 }
+// Budget exceeded sentinel (panic value): too many logical steps, or a call depth beyond MaxDepth (unbounded
+// recursion is cut long before the goroutine stack limit, and deterministically).
+type BudgetExceeded struct {
+	Steps int64
+	Depth int
+}
+
+// MaxDepth bounds the depth of nested calls of instrumented functions (legitimate runs stay below a few hundred).
+const MaxDepth = 3000
 
 // Config of one simulated run.
 type Config struct {
@@ -61,6 +68,7 @@ type Stats struct {
 	Switches      int64
 	SitePerturbed []int32 // per map site: perturbed visits with >= 2 keys
 	SiteVisits    []int32 // per map site: visits with >= 2 keys
+	MaxDepth      int
 	StateMismatch int64   // yield index (1-based) of first state-hash mismatch, 0 if none
 	MismatchSite  int32
 }
@@ -80,6 +88,8 @@ var (
 	sitePert   [MaxSites]int32
 	siteVis    [MaxSites]int32
 	maxSite    int32
+	depth      [65]int // per simulated reader (index token+1; 0 = no scheduler)
+	maxDepth   int
 )
 
 func mix(a, b uint64) uint64 {
@@ -112,6 +122,10 @@ func Begin(c Config) {
 		siteVis[i] = 0
 	}
 	maxSite = 0
+	for i := range depth {
+		depth[i] = 0
+	}
+	maxDepth = 0
 	sched = nil
 	active = true
 }
@@ -123,7 +137,7 @@ func Begin(c Config) {
 func End() Stats {
 	active = false
 	st := Stats{Steps: steps, MapVisits: mapVisits, Perturbed2: perturbed2, Fingerprint: fp,
-		InsertTaken: insTaken, InsertSkipped: insSkipped, DeleteHit: delHit, Yields: yields}
+		InsertTaken: insTaken, InsertSkipped: insSkipped, DeleteHit: delHit, Yields: yields, MaxDepth: maxDepth}
 	n := int(maxSite) + 1
 	st.SitePerturbed = make([]int32, n)
 	st.SiteVisits = make([]int32, n)
@@ -738,6 +752,44 @@ func ReaderExit(id int) {
 		s.trace = append(s.trace, uint16(next))
 	}
 	s.token = int32(next)
+}
+
+func depthSlot() int {
+	if sched != nil && sched.token >= 0 && int(sched.token) < len(depth)-1 {
+		return int(sched.token) + 1
+	}
+	return 0
+}
+
+// Enter is the hook at the entry of every instrumented function: a Yield plus call-depth accounting.
+//
+//go:norace
+//go:noinline
+func Enter(site int) {
+	if active {
+		i := depthSlot()
+		depth[i]++
+		if depth[i] > maxDepth {
+			maxDepth = depth[i]
+		}
+		if depth[i] > MaxDepth {
+			panic(BudgetExceeded{Steps: steps, Depth: depth[i]})
+		}
+	}
+	Yield(site)
+}
+
+// Leave is deferred at the entry of every instrumented function.
+//
+//go:norace
+//go:noinline
+func Leave() {
+	if active {
+		i := depthSlot()
+		if depth[i] > 0 {
+			depth[i]--
+		}
+	}
 }
 
 // Yield is a logical-clock tick and, under a scheduler, a scheduling point.
